@@ -1,6 +1,8 @@
 package gen
 
 import (
+	_ "embed"
+	"encoding/json"
 	"go/ast"
 	"go/parser"
 	"go/token"
@@ -29,6 +31,132 @@ var (
 
 var dictSymRe = regexp.MustCompile(`^[!-/:-@\[-` + "`" + `{-~]{1,3}$`)
 
+// The baseline: the dictionary of the tree as it was when the harness was last calibrated (gen/baseline_dict.json,
+// written by `verifmon DICT dump`). Literals of the tree under test that are NOT in the baseline - words, numbers,
+// operator spellings and whole short string literals that a later change introduced - are drawn half of the time
+// wherever a dictionary entry is drawn, and whole new literals are glued before / after / between versions. On the
+// tree the baseline was taken from the delta is empty and nothing changes.
+//
+//go:embed baseline_dict.json
+var baselineJSON []byte
+
+type dictSnapshot struct {
+	Words map[string][]string `json:"words"`
+	Nums  map[string][]string `json:"nums"`
+	Syms  map[string][]string `json:"syms"`
+	Lits  map[string][]string `json:"lits"`
+	Regex map[string][]string `json:"regex"`
+}
+
+var (
+	ecoLits  = map[string][]string{} // whole string literals of <= 16 bytes per package
+	newWords = map[string][]string{}
+	newNums  = map[string][]string{}
+	newSyms  = map[string][]string{}
+	newLits  = map[string][]string{}
+)
+
+// DumpDictionary serialises the current dictionary (the baseline file format).
+func DumpDictionary() []byte {
+	snap := dictSnapshot{Words: map[string][]string{"": dictWords}, Nums: map[string][]string{"": dictNums}, Syms: ecoSyms, Lits: ecoLits, Regex: ecoRegex}
+	for k, v := range ecoWords {
+		snap.Words[k] = v
+	}
+	for k, v := range ecoNums {
+		snap.Nums[k] = v
+	}
+	b, _ := json.Marshal(snap)
+	return b
+}
+
+// DeltaSizes reports how many literals of the tree under test are not in the baseline (evidence).
+func DeltaSizes() map[string]int {
+	n := map[string]int{}
+	for _, m := range []struct {
+		k string
+		v map[string][]string
+	}{{"words", newWords}, {"numbers", newNums}, {"operators", newSyms}, {"whole_literals", newLits}, {"regexes", newRegex}} {
+		for _, l := range m.v {
+			n[m.k] += len(l)
+		}
+	}
+	return n
+}
+
+func computeDelta() {
+	var base dictSnapshot
+	if len(baselineJSON) == 0 || json.Unmarshal(baselineJSON, &base) != nil || base.Words == nil {
+		return
+	}
+	diff := func(cur map[string][]string, old map[string][]string, out map[string][]string, extra string, extraCur []string) {
+		do := func(k string, l []string) {
+			seen := map[string]bool{}
+			for _, x := range old[k] {
+				seen[x] = true
+			}
+			for _, x := range l {
+				if !seen[x] {
+					out[k] = append(out[k], x)
+				}
+			}
+		}
+		for k, l := range cur {
+			do(k, l)
+		}
+		if extraCur != nil {
+			do(extra, extraCur)
+		}
+	}
+	diff(ecoWords, base.Words, newWords, "", dictWords)
+	diff(ecoNums, base.Nums, newNums, "", dictNums)
+	diff(ecoSyms, base.Syms, newSyms, "", nil)
+	diff(ecoLits, base.Lits, newLits, "", nil)
+	diff(ecoRegex, base.Regex, newRegex, "", nil)
+	seen := map[string]bool{}
+	var pk []string
+	for k := range newLits {
+		pk = append(pk, k)
+	}
+	sort.Strings(pk)
+	for _, k := range pk {
+		for _, l := range newLits[k] {
+			if !seen[l] {
+				seen[l] = true
+				allNewLits = append(allNewLits, l)
+			}
+		}
+	}
+	for _, k := range func() []string {
+		var ks []string
+		for k := range newSyms {
+			ks = append(ks, k)
+		}
+		sort.Strings(ks)
+		return ks
+	}() {
+		for _, l := range newSyms[k] {
+			if !seen[l] {
+				seen[l] = true
+				allNewLits = append(allNewLits, l)
+			}
+		}
+	}
+}
+
+// AnyNewLit draws a whole literal that some package of the tree under test has and the baseline has not ("" when the
+// delta is empty).
+func AnyNewLit(r *rand.Rand) string {
+	if len(allNewLits) == 0 {
+		return ""
+	}
+	return allNewLits[r.IntN(len(allNewLits))]
+}
+
+var allNewLits []string
+
+// NewLits returns the whole short string literals of a package that the baseline does not have.
+func NewLits(pkg string) []string { return newLits[pkg] }
+
 var dictWordRe = regexp.MustCompile(`[A-Za-z]{1,20}`)
 var dictNumRe = regexp.MustCompile(`[0-9]{1,30}`)
 
@@ -37,6 +165,7 @@ func LoadDictionary(repo string) (words, nums int) {
 	ws, ns := map[string]bool{}, map[string]bool{}
 	pws, pns := map[string]map[string]bool{}, map[string]map[string]bool{}
 	psy := map[string]map[string]bool{}
+	plit := map[string]map[string]bool{}
 	curPkg := ""
 	addWord := func(w string) {
 		ws[w] = true
@@ -93,6 +222,23 @@ func LoadDictionary(repo string) (words, nums int) {
 				curPkg = "cmd"
 			}
 			ast.Inspect(f, func(n ast.Node) bool {
+				if ce, ok := n.(*ast.CallExpr); ok && curPkg != "" && len(ce.Args) >= 1 {
+					if se, ok := ce.Fun.(*ast.SelectorExpr); ok {
+						if id, ok := se.X.(*ast.Ident); ok && id.Name == "regexp" && strings.Contains(se.Sel.Name, "ompile") {
+							if a, ok := ce.Args[0].(*ast.BasicLit); ok && a.Kind == token.STRING {
+								if src, err := strconv.Unquote(a.Value); err == nil && len(src) < 600 {
+									dup := false
+									for _, x := range ecoRegex[curPkg] {
+										dup = dup || x == src
+									}
+									if !dup {
+										ecoRegex[curPkg] = append(ecoRegex[curPkg], src)
+									}
+								}
+							}
+						}
+					}
+				}
 				bl, ok := n.(*ast.BasicLit)
 				if !ok {
 					return true
@@ -107,6 +253,12 @@ func LoadDictionary(repo string) (words, nums int) {
 					}
 					if len(s) > 200 {
 						return true
+					}
+					if curPkg != "" && len(s) >= 1 && len(s) <= 16 && !strings.ContainsAny(s, "\n\x00") {
+						if plit[curPkg] == nil {
+							plit[curPkg] = map[string]bool{}
+						}
+						plit[curPkg][s] = true
 					}
 					if curPkg != "" && dictSymRe.MatchString(s) {
 						if psy[curPkg] == nil {
@@ -163,6 +315,16 @@ func LoadDictionary(repo string) (words, nums int) {
 		sort.Strings(l)
 		ecoSyms[pkg] = l
 	}
+	for pkg, m := range plit {
+		var l []string
+		for n := range m {
+			l = append(l, n)
+		}
+		sort.Strings(l)
+		ecoLits[pkg] = l
+	}
+	computeDelta()
+	prepareRegexes()
 	return len(dictWords), len(dictNums)
 }
 
@@ -185,7 +347,15 @@ func SymRange(eco string, r *rand.Rand, version func() string) string {
 	if len(sy) == 0 {
 		return ">=" + version()
 	}
-	sym := func() string { return sy[r.IntN(len(sy))] }
+	sym := func() string {
+		if d := newSyms[eco]; len(d) > 0 && r.IntN(2) == 0 {
+			return d[r.IntN(len(d))]
+		}
+		if d := newLits[eco]; len(d) > 0 && r.IntN(3) == 0 {
+			return d[r.IntN(len(d))]
+		}
+		return sy[r.IntN(len(sy))]
+	}
 	one := func() string {
 		s := sym()
 		v := version()
@@ -229,6 +399,9 @@ func decDouble(d string) string {
 
 // DictWord returns a word from the source dictionary ("" when none was loaded).
 func DictWord(r *rand.Rand) string {
+	if d := newWords[""]; len(d) > 0 && r.IntN(2) == 0 {
+		return d[r.IntN(len(d))]
+	}
 	if len(dictWords) == 0 {
 		return "foo"
 	}
@@ -237,6 +410,9 @@ func DictWord(r *rand.Rand) string {
 
 // DictNum returns a number from the source dictionary.
 func DictNum(r *rand.Rand) string {
+	if d := newNums[""]; len(d) > 0 && r.IntN(2) == 0 {
+		return d[r.IntN(len(d))]
+	}
 	if len(dictNums) == 0 {
 		return "7"
 	}
@@ -245,6 +421,9 @@ func DictNum(r *rand.Rand) string {
 
 // EcoWord / EcoNum draw from the literals of one ecosystem package (falling back to the whole tree).
 func EcoWord(eco string, r *rand.Rand) string {
+	if d := newWords[eco]; len(d) > 0 && r.IntN(2) == 0 {
+		return d[r.IntN(len(d))]
+	}
 	if l := ecoWords[eco]; len(l) > 0 {
 		return l[r.IntN(len(l))]
 	}
@@ -252,6 +431,9 @@ func EcoWord(eco string, r *rand.Rand) string {
 }
 
 func EcoNum(eco string, r *rand.Rand) string {
+	if d := newNums[eco]; len(d) > 0 && r.IntN(2) == 0 {
+		return d[r.IntN(len(d))]
+	}
 	if l := ecoNums[eco]; len(l) > 0 {
 		return l[r.IntN(len(l))]
 	}
